@@ -524,3 +524,79 @@ def c07_family(tier, rnd):
                 progs.append(program(items, al.dom, cfg=cfg, bools=bools,
                                      fam="C07:%s:[%s]:%s" % (",".join(s if isinstance(s, str) else s[0] for s in st), ";".join(lst), cname)))
     return progs
+
+
+# ------------------------------------------------------------------ C08
+REPF = ["index", "number", "length", "start", "end", "even", "odd", "parity", "letter", "Letter", "roman", "Roman"]
+
+
+def _repbody(name, fields=REPF):
+    parts = ["["]
+    for f in fields:
+        parts.append(repv(name, f))
+        parts.append(",")
+    parts.append(pipe(var(name), const(S("u0"))))
+    parts.append("]")
+    return Text(*parts)
+
+
+def c08_family(tier, rnd):
+    quick = tier == "quick"
+    progs = []
+    # (a) every length / every position, all twelve variables
+    lens = list(range(0, 41)) if quick else list(range(0, 120))
+    al = Alloc(tier)
+    items = [Text("pre\n  "), Open(rep=(False, "x", al.call("repeat", [RANGE(n) for n in lens]))), _repbody("x"), CLOSE, Text("\npost")]
+    progs.append(program(items, al.dom, fam="C08:lengths"))
+    # boundaries of letter / roman
+    big = [26, 27, 53] if quick else [26, 27, 52, 53, 676, 677, 702, 703, 728, 3999, 4000, 4100]
+    for n in big:
+        al = Alloc(tier)
+        items = [Text("pre\n"), Open(tag="ns", rep=(False, "x", al.call("repeat", [RANGE(n)]))),
+                 _repbody("x", ["index", "letter", "Letter", "roman", "Roman", "end"]), CLOSE, Text("post")]
+        progs.append(program(items, al.dom, fam="C08:big%d" % n))
+    # (b) iterable kinds
+    kinds = [SEQ([S("a"), S("b"), S("c")]), SEQ([S("a"), S("b")], once=True), SEQ([]), SEQ([], once=True), NONE,
+             DICT([("a", I(0)), ("b", I(7))]), DICT([]), S("h"), S(""), S("a"), RANGE(3), BY("h"), I(7), OBJ("plain"), B(True)]
+    al = Alloc(tier)
+    items = [Text("pre\n  "), Open(rep=(False, "x", al.call("repeat", kinds))), _repbody("x", ["index", "length", "end"]), CLOSE,
+             Text("post", pipe(var("x"), const(S("u0"))))]
+    progs.append(program(items, al.dom, fam="C08:kinds"))
+    # (c) nesting with reused and distinct names; outer variables read after the inner loop
+    names = ["x", "y"]
+    for n1 in names:
+        for n2 in names:
+            for n3 in (None, "x", "y"):
+                if quick and n3 is not None and rnd.random() < 0.5:
+                    continue
+                al = Alloc(tier)
+                items = [Text("pre\n "), Open(rep=(False, n1, al.call("repeat", [RANGE(2), RANGE(0), RANGE(3)]))),
+                         _repbody(n1, ["index", "end"]), Text("\n  "),
+                         Open(rep=(False, n2, al.call("repeat", [RANGE(2), RANGE(0)])), sattr=[]), _repbody(n2, ["number", "length"])]
+                if n3:
+                    items += [Text("\n   "), Open(tag="ns", rep=(False, n3, al.call("repeat", [RANGE(2), SEQ([S("a")])]))),
+                              _repbody(n3, ["letter", "start"]), CLOSE, Text("i"), _repbody(n2, ["number", "end", "parity"])]
+                items += [CLOSE, Text("o"), _repbody(n1, ["index", "number", "Roman", "odd"]), CLOSE,
+                          Text("post", pipe(var("x"), const(S("u0"))), pipe(var("y"), const(S("u0"))))]
+                progs.append(program(items, al.dom, fam="C08:nest:%s/%s/%s" % (n1, n2, n3)))
+    # (d) tuple unpacking
+    pairs = [SEQ([SEQ([S("a"), I(7)]), SEQ([S("b"), I(0)])]), SEQ([SEQ([S("a"), I(7)]), SEQ([S("b")])]),
+             SEQ([SEQ([S("a"), I(7), I(0)])]), SEQ([I(7)]), SEQ([]), DICT([("a", I(0))])]
+    al = Alloc(tier)
+    items = [Text("pre\n  "), Open(rep=(False, ("x", "y"), al.call("repeat", pairs))),
+             Text("[", pipe(var("x"), const(S("u0"))), ",", pipe(var("y"), const(S("u0"))), "]"), CLOSE,
+             Text("post", pipe(var("x"), const(S("u0"))), pipe(var("y"), const(S("u0"))))]
+    progs.append(program(items, al.dom, init={"y": S("c")}, fam="C08:unpack"))
+    # (e) placements of the repeated element relative to the preceding text
+    for tail in ["\n", "\n  ", "\n\t", "\n \t ", "x\n    ", "\n  text", "text", "\n\n  "]:
+        for tag in ("el", "ns"):
+            al = Alloc(tier)
+            items = [Text("pre" + tail), Open(tag=tag, rep=(False, "x", al.call("repeat", [RANGE(3), RANGE(1), RANGE(0)])), sattr=[]),
+                     Text("k", var("x")), CLOSE, Text("\npost")]
+            progs.append(program(items, al.dom, fam="C08:place:%r:%s" % (tail, tag)))
+    # first child without preceding text, and directly after another element
+    al = Alloc(tier)
+    items = [Open(sattr=[]), Open(rep=(False, "x", al.call("repeat", [RANGE(2)])), sattr=[]), Text("k"), CLOSE,
+             Open(rep=(False, "x", al.call("repeat", [RANGE(2)])), sattr=[]), Text("m"), CLOSE, CLOSE]
+    progs.append(program(items, al.dom, fam="C08:place:nopre"))
+    return progs
